@@ -219,7 +219,8 @@ def gen_dataset_case(rng, confirm, i):
         else:
             cats = None
         files.append({"dir": d, "name": name, "n": n, "off": off, "codec": rng.choice([None, None, "GZIP", "SNAPPY", "ZSTD"]),
-                      "rgo": rng.choice([None, None, 2]) if n > 2 else None, "cats": cats, "objbool": objbool})
+                      # "each": one row group per row - a footer much larger than the first file's (second fetch of the fast path)
+                      "rgo": rng.choice([None, None, 2, "each"]) if n > 2 else None, "cats": cats, "objbool": objbool})
         off += n + 1
     if shape in ("hive", "drill") and rng.random() < 0.5:
         root_mode = "given"
@@ -294,7 +295,8 @@ def check_dataset(case, root, pq, ctx=None, verbose=False):
         else:
             os.makedirs(d, exist_ok=True)
             p = os.path.join(d, spec["name"])
-            write(p, df, compression=spec["codec"], row_group_offsets=[0, 2] if spec["rgo"] else None)
+            write(p, df, compression=spec["codec"],
+                  row_group_offsets=list(range(len(df))) if spec["rgo"] == "each" else ([0, 2] if spec["rgo"] else None))
             paths.append(p)
     if case.get("junk"):           # files that are not parquet data next to the data
         open(os.path.join(root, "README.txt"), "w").write("not a parquet file\n")
